@@ -33,10 +33,15 @@ RULE = ("systematic sweep over apply x lamb x shuffle x {mixup,cutmix,mixed} x d
         "H,W in 1..24 (1-pixel, non-square), one-hot (2..10 classes, unique or repeated; float32 / float64 / float16 / "
         "int64 as produced by F.one_hot), label-smoothed (float32 / float64), binary int/float/soft-scalar labels "
         "(python numbers, float32 / float64 / int64 tensors) or no label item, dataset modes = random permutations of x [class] [index aux meta "
-        "name ctx.src], return_ctx on/off, alphas 0.1..8, collator seeds; a case is distinct by its full spec and trivial if B == 1")
+        "name ctx.src], 15% with repeated item names (x / class / others listed twice), return_ctx on/off, alphas 0.1..8, collator seeds; "
+        "30% of the cases are histories: the same collator instance collates 2..4 consecutive batches (same shape with fresh ids, or B/C/H/W "
+        "changed in between), each judged against its own inputs; a case is distinct by its full spec and trivial if it is a single batch with B == 1")
 ASSUMPTIONS = [
     "mixup_p + cutmix_p == 1 only (the constructor refuses other sums with NotImplementedError; 'apply' is therefore always true and not judged)",
     "dataset modes always contain 'x' (the collator derives the batch size from the image item)",
+    "a dataset mode may list an item name twice (ModeWrapper has no uniqueness check): the first occurrence of x / class is the mixed one "
+    "(ModeWrapper.get_item / set_item address the first occurrence), every later copy is judged as a pass-through item (silent on the pristine tree)",
+    "histories: batches of one history share mode, label kind/dtype and collator instance; a flip refusal of an odd batch does not end the history",
     "shuffle_mode='random' is read as a permutation of the batch (DESIGN C10: a bijection shared by image and label); fixed points are allowed",
     "flip with an odd batch size is an enumerated refusal class (the collator's own assert); if the call returns, the oracle is applied with p(i)=B-1-i",
     "ctx['lambda'] may hold one weight for the whole batch or one per sample; ctx['apply'] / ctx['use_cutmix'] are not judged",
@@ -46,7 +51,7 @@ ASSUMPTIONS = [
     "statistical clause (random shuffling really moves samples): only batches with B>=5, pure mixup, alpha>=1, 6-bit ids count; a correct "
     "implementation leaves such a batch unmoved with probability < 0.02, the clause fires only if >= 8 such batches were all unmoved (< 2.6e-14)",
 ]
-MONITORS = ["batches_checked", "samples_checked", "cutmix_box_decoded", "mixup_weight_decoded", "label_weight_decoded",
+MONITORS = ["history_batches_checked", "repeated_item_copies_compared", "batches_checked", "samples_checked", "cutmix_box_decoded", "mixup_weight_decoded", "label_weight_decoded",
             "image_label_weight_compared", "ctx_lambda_compared", "partner_identified_from_output", "passthrough_items_compared",
             "layout_checked", "binary_labels_checked", "random_bijection_checked", "non_float32_label_batches_checked"]
 
@@ -139,18 +144,67 @@ def _gen_case(rng, combo=None):
         rng.shuffle(items)
         if rng.random() < 0.1:
             items.insert(rng.randint(items.index("x") + 1, len(items)), "ctx.src")  # filled by getitem_x -> after x
+        if rng.random() < 0.15:
+            # a mode may list an item twice (e.g. "x class x" carries an unmixed reference image): get_item / set_item address
+            # the first occurrence, every later copy is an ordinary pass-through item
+            for _ in range(rng.choice([1, 1, 2])):
+                dup = rng.choice([it for it in items if it != "ctx.src"] + ["x"] + (["class"] if want_class else []))
+                items.insert(rng.randint(0, len(items)), dup)
         mode = " ".join(items)
         return_ctx = rng.random() < 0.6
         label = _gen_label(rng, B, want_class)
     spec = {"driver": driver, "cfg": cfg, "split": split, "B": B, "C": C, "H": H, "W": W, "bits": bits, "ids": ids, "order": order,
             "label": label, "mode": mode, "return_ctx": return_ctx, "rng_seed": rng.randrange(2 ** 31)}
-    if B == 1:
+    if rng.random() < 0.3:
+        spec["more"] = _gen_more(rng, spec)
+    if B == 1 and not spec.get("more"):
         spec["_trivial"] = True
     return spec
 
 
+def _regen_label(rng, label, B):
+    lab = dict(label)
+    if lab["kind"] == "onehot":
+        K = lab["K"]
+        lab["classes"] = rng.sample(range(K), B) if K >= B and rng.random() < 0.7 else [rng.randrange(K) for _ in range(B)]
+    elif lab["kind"] == "smooth":
+        lab["classes"] = [rng.randrange(lab["K"]) for _ in range(B)]
+    elif lab["kind"] != "none":
+        pool = [0, 1] if all(v in (0, 1) for v in lab["values"]) else [0, 1, 0.25, 0.5]
+        lab["values"] = [rng.choice(pool) for _ in range(B)]
+    return lab
+
+
+def _gen_more(rng, spec):
+    """1..3 further batches collated by the SAME collator instance: same shape (fresh ids) or a changed B / C / H / W"""
+    more, used = [], set(spec["ids"])
+    cur = {k: spec[k] for k in ("B", "C", "H", "W")}
+    for _ in range(rng.choice([1, 1, 2, 3])):
+        if rng.random() < 0.35:
+            cur = dict(cur)
+            what = rng.choice(["B", "HW", "C", "all"])
+            if what in ("B", "all"):
+                B = rng.choice([1, 2, 3, 4, 5, 6, 8])
+                if spec["cfg"]["shuffle_mode"] == "flip" and B % 2 == 1 and rng.random() < 0.85:
+                    B += 1
+                cur["B"] = B
+            if what in ("HW", "all"):
+                cur["H"], cur["W"] = _gen_dim(rng), _gen_dim(rng)
+            if what in ("C", "all"):
+                cur["C"] = rng.choice([1, 2, 3, 4])
+        B = cur["B"]
+        free = [i for i in range(1 << spec["bits"]) if i not in used]
+        ids = rng.sample(free if len(free) >= B else range(1 << spec["bits"]), B)  # fresh ids: a pixel of an earlier batch is recognisable
+        used.update(ids)
+        order = list(range(B))
+        if rng.random() < 0.5:
+            rng.shuffle(order)
+        more.append(dict(cur, ids=ids, order=order, label=_regen_label(rng, spec["label"], B)))
+    return more
+
+
 def gen_cases(run):
-    n = run.n(6000, 320000)
+    n = run.n(4800, 280000)
     rng = run.rng
     combos = [(a, l, s, sp, d) for d in ["single", "compose", "loader"] for a in APPLY for l in LAMB for s in SHUFFLE for sp in SPLITS]
     combos += [("batch", "batch", "flip", "mixed", "mae")] * 6
@@ -192,82 +246,102 @@ def _describe(f):
 def run_case(run, spec):
     if "finalize" in spec:  # whole-run clause: not replayable as a single case
         return
-    cfg, B, C, H, W, bits = spec["cfg"], spec["B"], spec["C"], spec["H"], spec["W"], spec["bits"]
-    mode, rc, order = spec["mode"], spec["return_ctx"], spec["order"]
+    ok, coll = call_real(run, lambda: _build_collator(spec), crash_key="ctor-crash", what=f"constructing {spec['driver']} collator {spec['cfg']}")
+    if not ok:
+        return
+    first = {k: spec[k] for k in ("B", "C", "H", "W", "ids", "order", "label")}
+    earlier = []  # [(batch number, (C,H,W), [reference images])] of the batches this collator instance has already collated
+    for k, b in enumerate([first] + list(spec.get("more", []))):
+        if not _run_batch(run, spec, b, coll, k, earlier):
+            return
+
+
+def _run_batch(run, spec, b, coll, k, earlier):
+    """collate batch number k of the history with `coll` and judge it against ITS OWN inputs; False = stop the case"""
+    cfg, bits = spec["cfg"], spec["bits"]
+    B, C, H, W = b["B"], b["C"], b["H"], b["W"]
+    mode, rc, order = spec["mode"], spec["return_ctx"], b["order"]
     items = mode.split(" ")
+    first_pos = {it: items.index(it) for it in items}
     shuffle_mode = cfg["shuffle_mode"]
     cc = _cfgclass(spec)
-    ds = MixLeaf(spec["ids"], C, H, W, bits, spec["label"])
+    hist = f"batch {k} of a history of {1 + len(spec.get('more', []))}: " if spec.get("more") else ""
+    ds = MixLeaf(b["ids"], C, H, W, bits, b["label"])
     mw = ModeWrapper(dataset=ds, mode=mode, return_ctx=rc)
 
     # reference: plain default collation of the same samples (fresh fetch: the collator may work in place)
-    ref = default_collate([mw[k] for k in order])
+    ref = default_collate([mw[q] for q in order])
     ref_ctx = None
     if rc:
         ref, ref_ctx = ref
     ref_items = [ref] if len(items) == 1 else list(ref)
 
-    ok, coll = call_real(run, lambda: _build_collator(spec), crash_key="ctor-crash", what=f"constructing {spec['driver']} collator {cfg}")
-    if not ok:
-        return
     refusal = "flip-odd-batch" if shuffle_mode == "flip" and B % 2 == 1 else None
     if spec["driver"] == "loader":
         fn = lambda: next(iter(DataLoader(mw, batch_size=B, sampler=list(order), collate_fn=coll)))
     else:
-        batch = [mw[k] for k in order]
+        batch = [mw[q] for q in order]
         fn = lambda: coll(batch)
-    ok, out = call_real(run, fn, refusal_class=refusal, what=f"{spec['driver']} collator(batch) mode={mode!r} B={B} {cfg}")
+    n_refused = sum(run.refusals.values())
+    ok, out = call_real(run, fn, refusal_class=refusal, what=f"{hist}{spec['driver']} collator(batch) mode={mode!r} B={B} {cfg}")
     if not ok:
-        return
+        return sum(run.refusals.values()) > n_refused  # an enumerated refusal does not end the history, a violation does
     run.count("batches_checked")
     bclass = "1" if B == 1 else "2" if B == 2 else "odd" if B % 2 else "even"
     shape_class = "1px" if H * W == 1 else "line" if min(H, W) == 1 else "square" if H == W else "rect"
     run.cover(spec["driver"], cfg["apply_mode"], cfg["lamb_mode"], shuffle_mode, spec["split"])
     run.cover("B", bclass, shuffle_mode, spec["label"]["kind"], shape_class)
     run.cover("label-dtype", spec["label"]["kind"], spec["label"].get("dtype", "native"), cfg["lamb_mode"], spec["split"])
-    run.cover("mode", len(items), "class" in items, rc, spec["driver"])
+    run.cover("mode", len(items), "class" in items, rc, spec["driver"], len(set(items)) < len(items))
+    if k > 0:
+        run.count("history_batches_checked")
+        run.cover("history", "same-shape" if any(e[1] == (B, C, H, W) for e in earlier) else "shape-changed", cfg["lamb_mode"], spec["split"], spec["driver"])
 
     # ---- layout
     ctx = None
     if rc:
         if not (isinstance(out, (list, tuple)) and len(out) == 2 and isinstance(out[1], dict)):
             run.violation("layout:return-ctx", f"return_ctx=True but the collator returned {_shape(out)} instead of (batch, ctx)")
-            return
+            return False
         out, ctx = out
     run.count("layout_checked")
     if len(items) == 1:
         if not torch.is_tensor(out):
             run.violation("layout:single-item-mode", f"dataset_mode={mode!r} has one item, default collation gives a tensor "
                           f"{tuple(ref_items[0].shape)}, the collator returned {_shape(out)}")
-            return
+            return False
         out_items = [out]
     else:
         if not (isinstance(out, (list, tuple)) and len(out) == len(items)):
             run.violation("layout:multi-item-mode", f"dataset_mode={mode!r} has {len(items)} items, the collator returned {_shape(out)}")
-            return
+            return False
         out_items = list(out)
 
     # ---- pass-through items and ctx entries
     for pos, it in enumerate(items):
-        if it in ("x", "class"):
-            continue
+        if it in ("x", "class") and pos == first_pos[it]:
+            continue  # the mixed image / label: judged below
         run.count("passthrough_items_compared")
+        copy = pos != first_pos[it]
+        if copy:
+            run.count("repeated_item_copies_compared")
         if not same(out_items[pos], ref_items[pos]):
-            run.violation(f"passthrough-changed:{it.split('.')[0]}", f"item {it!r} (position {pos} of mode {mode!r}) differs from default "
-                          f"collation: got {_short(out_items[pos])}, expected {_short(ref_items[pos])}")
-            return
+            key = f"passthrough-changed:repeated-{it}" if copy else f"passthrough-changed:{it.split('.')[0]}"
+            run.violation(key, f"{hist}item {it!r} (position {pos} of mode {mode!r}" + (f", a later copy of the item at position {first_pos[it]}" if copy else "")
+                          + f") differs from default collation: got {_short(out_items[pos])}, expected {_short(ref_items[pos])}")
+            return False
     if rc:
-        for k, v in ref_ctx.items():
+        for ck, v in ref_ctx.items():
             run.count("passthrough_items_compared")
-            if k not in ctx or not same(ctx[k], v):
-                run.violation("passthrough-changed:ctx", f"ctx[{k!r}] differs from default collation: got {_short(ctx.get(k))}, expected {_short(v)}")
-                return
+            if ck not in ctx or not same(ctx[ck], v):
+                run.violation("passthrough-changed:ctx", f"{hist}ctx[{ck!r}] differs from default collation: got {_short(ctx.get(ck))}, expected {_short(v)}")
+                return False
 
     # ---- image / label tensors
     X = out_items[items.index("x")]
     if not torch.is_tensor(X) or tuple(X.shape) != (B, C, H, W):
         run.violation("image-shape", f"image item is {_shape(X)}, expected a tensor of shape {(B, C, H, W)}")
-        return
+        return False
     X = _np(X)
     has_y = "class" in items
     binary = has_y and spec["label"]["kind"].startswith("bin")
@@ -277,7 +351,7 @@ def run_case(run, spec):
         Yref = ref_items[items.index("class")]
         if not torch.is_tensor(Yt) or tuple(Yt.shape) != tuple(Yref.shape):
             run.violation("label-shape:binary" if binary else "label-shape", f"label item is {_shape(Yt)}, default collation has shape {tuple(Yref.shape)}")
-            return
+            return False
         Y = _np(Yt)
         if not binary and spec["label"].get("dtype", "float32") != "float32":
             run.count("non_float32_label_batches_checked")
@@ -285,26 +359,26 @@ def run_case(run, spec):
             run.count("binary_labels_checked")
             if not ((Y >= -LABEL_TOL) & (Y <= 1 + LABEL_TOL)).all():
                 run.violation("label-range:binary", f"binary labels left [0,1]: {Y.tolist()}")
-                return
+                return False
         else:
             if (Y < -LABEL_TOL).any() or np.abs(Y.sum(axis=1) - 1.0).max() > 1e-5:
                 run.violation("label-rows-not-distributions", f"label rows must be non-negative and sum to one; sums={Y.sum(axis=1).tolist()} min={Y.min()}")
-                return
+                return False
     lam = None
     if rc:
         if "lambda" not in ctx:
             run.violation("ctx-lambda-missing", f"ctx has keys {sorted(ctx)} but no 'lambda'")
-            return
+            return False
         lam = _np(torch.as_tensor(ctx["lambda"])).reshape(-1)
         if lam.size not in (1, B):
             run.violation("ctx-lambda-shape", f"ctx['lambda'] has {lam.size} entries for a batch of {B}")
-            return
+            return False
         if lam.size == 1:
             lam = np.repeat(lam, B)
 
     # references per batch position
-    xs = [encode(spec["ids"][k], C, H, W, bits) for k in order]
-    ys = [ds.label_row(k) for k in order] if has_y else None
+    xs = [encode(b["ids"][q], C, H, W, bits) for q in order]
+    ys = [ds.label_row(q) for q in order] if has_y else None
 
     # ---- per-sample decoding
     admissible = []
@@ -320,8 +394,8 @@ def run_case(run, spec):
             J = list(range(B))
         res = _judge_sample(i, J, X, Y, lam, xs, ys)
         if not res["good"]:
-            _report(run, spec, cc, i, J, res, X, Y, lam, xs, ys)
-            return
+            _report(run, spec, cc, i, J, res, X, Y, lam, xs, ys, hist, earlier)
+            return False
         admissible.append(set(res["good"]))
         g = res["good"]
         j0 = next(iter(g))
@@ -351,13 +425,15 @@ def run_case(run, spec):
         if not perfect_matching(admissible):
             run.violation(f"random-partner-not-a-permutation:{cc}", f"shuffle_mode=random: no bijection fits the decoded partners {[sorted(a) for a in admissible]} "
                           f"(several samples were mixed with the same partner)")
-            return
+            return False
         if B >= 5 and spec["split"] == "mixup" and cfg["mixup_alpha"] >= 1 and bits == 6:
             run.count("random_eligible_batches")
             if moved:
                 run.count("random_eligible_moved")
     run.sample({"driver": spec["driver"], "cfg": cfg, "mode": mode, "return_ctx": rc, "B": B, "CHW": [C, H, W], "label": spec["label"]["kind"],
-                "decoded[i, partners, kind, w_image, w_label, ctx_lambda]": decoded})
+                "batch_in_history": [k, 1 + len(spec.get("more", []))], "decoded[i, partners, kind, w_image, w_label, ctx_lambda]": decoded})
+    earlier.append((k, (B, C, H, W), xs))
+    return True
 
 
 def _judge_sample(i, J, X, Y, lam, xs, ys):
@@ -393,17 +469,30 @@ def _judge_sample(i, J, X, Y, lam, xs, ys):
     return {"good": good, "best": best}
 
 
-def _report(run, spec, cc, i, J, res, X, Y, lam, xs, ys):
+def _report(run, spec, cc, i, J, res, X, Y, lam, xs, ys, hist="", earlier=()):
     B = len(xs)
     best = res["best"]
     mode = spec["cfg"]["shuffle_mode"]
-    head = f"sample {i} of B={B} ({spec['driver']}, {spec['cfg']}, mode={spec['mode']!r}, CHW={[spec['C'], spec['H'], spec['W']]}): "
+    head = f"{hist}sample {i} of B={B} ({spec['driver']}, {spec['cfg']}, mode={spec['mode']!r}, CHW={list(xs[0].shape)}): "
     if best["stage"] == 0:
         others = [(j, f) for j in range(B) if j not in J for f in image_fits(X[i], xs[i], xs[j], is_self=(j == i))]
         if others:
             j, f = others[0]
             run.violation(f"image-wrong-partner:{mode}", head + f"shuffle_mode={mode} prescribes partner {J}, but the image is a mix with sample {j}: {_describe(f)}")
         else:
+            for ek, eshape, exs in earlier:  # does the output contain pixels of a batch collated EARLIER by this collator instance?
+                if eshape[1:] != xs[0].shape:
+                    continue
+                for ej, ex in enumerate(exs):
+                    if (ex == xs[i]).all():
+                        continue  # ids were reused: indistinguishable from the sample itself
+                    fits = image_fits(X[i], xs[i], ex, is_self=False)
+                    n_px = int((X[i] == ex).sum())
+                    if fits or n_px:
+                        run.violation(f"image-mixed-with-earlier-batch:{cc}", head + f"the image is not a mix with any sample of its own batch; it contains "
+                                      f"sample {ej} of batch {ek} collated earlier by the same collator instance "
+                                      f"({_describe(fits[0]) if fits else str(n_px) + ' pixels equal to that sample'})")
+                        return
             run.violation(f"image-not-a-mix:{cc}", head + f"image is neither x_i, nor x_i with one box of a partner pasted, nor a convex combination with "
                           f"any admissible partner {J}; pixel sources: {_sources(X[i], xs)}")
         return
